@@ -124,7 +124,7 @@ def passing (w : World) (p : Nat) (v : Int) : List Watcher :=
 theorem setPlain_in_batch_exact (c : Cfg) (f : Nat) (w : World) (p : Nat) (v : Int)
     (hb : w.batch = true) (hv : c.valid p v = true) (h : (run c f (.setPlain p v) w).1 ≠ .oof) :
     run c f (.setPlain p v) w =
-      (.ok, { w with vals := w.vals.set p v,
+      (.ok, { w with vals := w.vals.set p v, owned := p :: w.owned,
                      events := w.events ++ (passing w p v).map (fun _ => { name := p, old := getVal w p, new := v }),
                      queued := enqueue w.queued (passing w p v) }, []) := by
   cases f with
@@ -136,9 +136,9 @@ theorem setPlain_in_batch_exact (c : Cfg) (f : Nat) (w : World) (p : Nat) (v : I
       simp [he, passing, this, sortByPrec, enqueue]
     · simp only [he, Bool.false_eq_true, if_false] at h ⊢
       have hd := dispatch_in_batch c { name := p, old := getVal w p, new := v } (sortByPrec (regsFor w p)) f
-        { w with vals := w.vals.set p v } hb
+        { w with vals := w.vals.set p v, owned := p :: w.owned } hb
       generalize run c f (.dispatch (sortByPrec (regsFor w p)) { name := p, old := getVal w p, new := v })
-        { w with vals := w.vals.set p v } = d at h hd ⊢
+        { w with vals := w.vals.set p v, owned := p :: w.owned } = d at h hd ⊢
       obtain ⟨r1, w2, o1⟩ := d
       cases r1 with
       | oof => simp at h
@@ -198,7 +198,7 @@ theorem update_is_keys_then_flush (c : Cfg) (f : Nat) (kvs : List (Nat × Int)) 
 
 /-- what a batched assignment of a valid value does to the world (`setPlain_in_batch_exact`) -/
 def applyKey (w : World) (p : Nat) (v : Int) : World :=
-  { w with vals := w.vals.set p v,
+  { w with vals := w.vals.set p v, owned := p :: w.owned,
            events := w.events ++ (passing w p v).map (fun _ => { name := p, old := getVal w p, new := v }),
            queued := enqueue w.queued (passing w p v) }
 
